@@ -791,72 +791,6 @@ def conj(c):
 
 
 # ------------------------------------------------------------------ LCP insertion sort: general vs last iteration
-def check_inssort_twins(ck, tu):
-    for fn in [f for f in tu.functions if f.qname == NS + "insertion_sort" and "LcpPtr" in f.full]:
-        loops = [s for s in kids(fn.body) if s["k"] == "ForStmt"]
-        blocks = [s for s in kids(fn.body) if s["k"] == "CompoundStmt"]
-        if len(loops) != 1 or len(blocks) != 1:
-            raise ir.AnalysisBroken("%s: general loop / last-iteration block not found" % fn.full)
-        gen = kids(loops[0])[3]
-
-        def flat(stmt, drop_bounds):
-            out = []
-            names = dtable.local_canon(stmt)       # alpha-renaming: a rename in one of the two copies is not a difference
-
-            def rec(s):
-                if s is None:
-                    return
-                k = s["k"]
-                if k == "CompoundStmt":
-                    for c in kids(s):
-                        rec(c)
-                elif k == "IfStmt":
-                    c, t, e = kids(s)
-                    d = dtable.describe(c)
-                    bb = match.binop(c, ("<",))
-                    pl = match.binop(bb[1], ("+",)) if bb else None
-                    only_lcp = e is None and all(("callee" in strip_casts(q) and strip_casts(q)["callee"]["name"] == "set_lcp")
-                                                 for q in (kids(t) if t is not None and t["k"] == "CompoundStmt" else [t]) if q is not None)
-                    if drop_bounds and pl and const_int(pl[2]) == 1 and only_lcp:
-                        # `if (x + 1 < n) set_lcp(x + 1, ...)`: the bounds guard that distinguishes the last iteration
-                        rec(t)
-                        return
-                    out.append("if " + d)
-                    rec(t)
-                    out.append("else")
-                    rec(e)
-                    out.append("fi")
-                elif k == "WhileStmt":
-                    out.append("while " + dtable.describe(kids(s)[0]))
-                    rec(kids(s)[1])
-                    out.append("done")
-                elif k == "DeclStmt":
-                    for v in kids(s):
-                        out.append("decl %s = %s" % (names.get(v.get("did"), v.get("name")), dtable.describe(kids(v)[0]) if kids(v) else ""))
-                else:
-                    out.append(dtable.describe(s))
-            with dtable.canonical_names(names):
-                rec(stmt)
-            return out, names
-        (a, na), (b, nb) = flat(gen, False), flat(blocks[0], True)
-        # the last iteration declares its own j = n - 1 (the general one takes j from the loop): drop that declaration and
-        # give the remaining locals of both copies the same canonical numbering
-        jdecl = [x for x in b if x.startswith("decl v1 = (") and x.endswith("- 1)")]
-        if jdecl and len(nb) == len(na) + 1:
-            b = [x for x in b if x is not jdecl[0]]
-            import re as _re
-            b = [_re.sub(r"\bv(\d+)\b", lambda m: "v%d" % (int(m.group(1)) - 1) if int(m.group(1)) > 1 else "j", x) for x in b]
-        if a != b:
-            i = 0
-            while i < min(len(a), len(b)) and a[i] == b[i]:
-                i += 1
-            ck.violation("INSSORT-TWINS", fn.qname, "lcp-last-iteration",
-                         "the bounds-checked last iteration differs from the general iteration at step %d: `%s` vs `%s`"
-                         % (i, a[i] if i < len(a) else "<end>", b[i] if i < len(b) else "<end>"), fn.loc)
-        else:
-            ck.ok("INSSORT-TWINS", where(fn), "%d steps identical modulo the (i + 1 < n) guards" % len(a))
-
-
 # ------------------------------------------------------------------ public entry points
 def check_entries(ck, tu):
     for fn in [f for f in tu.functions if f.qname in ("tlx::sort_strings", "tlx::sort_strings_lcp")]:
@@ -921,7 +855,7 @@ def run(ck):
         "constructors make bucket 0 final and home (BUCKET-RANGE, STEP-BUCKET0); exclusive prefix sums are consumed by post-increment and inclusive "
         "ones by pre-decrement with the counting key (PREFIX-SUM-USE); memory-limit fall-backs forward (strptr, depth, memory) and form a DAG ending in "
         "insertion_sort (FALLBACK-FORWARD/DAG); key packing shifts and end tests (KEY-PACK-TABLE), unsigned characters (CHAR-UNSIGNED); fill loops "
-        "over runs of equal strings never write LCP slot 0 of their range (LCP-SLOT0); the two copies of the LCP insertion step agree (INSSORT-TWINS); "
+        "over runs of equal strings never write LCP slot 0 of their range (LCP-SLOT0); "
         "all 20 public overloads reach radixsort_CE3 at depth 0 with their own arguments (ENTRY-FORWARD).")
     tu = ir.extract("witness/C03_sort_strings.cpp")
     check_loops(ck, tu)
@@ -930,7 +864,6 @@ def run(ck):
     check_fallback(ck, tu)
     check_keypack(ck, tu)
     check_lcp_slot0(ck, tu)
-    check_inssort_twins(ck, tu)
     check_entries(ck, tu)
     ck.floor("BUCKET-RANGE", 50)
     ck.floor("BUCKET-DISPOSED", 150)
@@ -944,5 +877,4 @@ def run(ck):
     ck.floor("KEY-PACK-TABLE", 10)
     ck.floor("CHAR-UNSIGNED", 5)
     ck.floor("LCP-SLOT0", 40)
-    ck.floor("INSSORT-TWINS", 5)
     ck.floor("ENTRY-FORWARD", 20)
